@@ -6,7 +6,7 @@ from .common import chunks, report, run_batches, verdict_of, write_ndjson
 from .tlc import TLCError, run_tlc
 
 FAMILY = {
-    "C02": {"First", "ArgMax", "Point", "Inside"},
+    "C02": {"First", "ArgMax", "Point", "Inside", "SpuriousGuard"},
     "C03": {"Count", "Budget", "StopLate", "StopEarly", "Accuracy", "SolveReturns", "NoIntExc", "DgiCount",
             "SolveReturnsResults"},
     "C04": {"BestValue", "BestIsTrial", "BestAtPoint", "BestPresent", "RefValue"},   # RefValue: reported value = objective at the reported point, after refinement
